@@ -29,7 +29,7 @@ import lib
 import sched
 
 # ------------------------------------------------------------------------------------------------ programs
-# op syntax shared with the driver:  inc:o:a get:o lab:k linc:k:a rem:k clr reg:c unreg:c col rcol:c rrcol:c  (+ oracle-only obs:s:a obs:h:a info:v state:k sti:v gti rcx:c rct stn linc2:k:a regy:i unregy:i)
+# op syntax shared with the driver:  inc:o:a set:o:a get:o lab:k linc:k:a rem:k clr reg:c unreg:c col rcol:c rrcol:c  (+ oracle-only obs:s:a obs:h:a info:v state:k sti:v gti rcx:c rct stn linc2:k:a regy:i unregy:i)
 # rcol:c  = registry.collect() over a collector that registers/unregisters x<c> and does a restricted lookup and a
 #           get_target_info from inside its collect();  rrcol:c = registry.restricted_registry(['e']).collect() over the same collector
 QUICK_PROGRAMS = [
@@ -69,6 +69,10 @@ QUICK_PROGRAMS = [
     # world y: collector y1 (claiming x9) is registered in the set-up phase; y2 claims the same name
     ('cy', 'unregy:1|regy:2', 1, False),
     ('cy', 'unregy:1|col,regy:2', 1, False),
+    # an increment racing a reset() / set() of the same series (world v: the values hold 5 when the threads start; object 0 =
+    # counter c, set:0:0 = Counter.reset(); object 1 = gauge g): the final value must be one a SERIAL order of the calls gives
+    ('cv', 'inc:0:1|set:0:0', 1, True),
+    ('Gv', 'inc:1:1|set:1:10', 1, True),
 ]
 DEEP = {'linc:0:1|linc2:0:2', 'linc:0:1,linc:1:1|linc2:0:2,linc2:1:2'}
 THOROUGH_PROGRAMS = [
@@ -96,6 +100,9 @@ THOROUGH_PROGRAMS = [
     ('c', 'regy:1|regy:2|col', 2, False),
     ('q', 'col,col|rem:0,linc:1:1|clr', 2, False),
     ('cy', 'unregy:1|col,regy:2|col', 2, False),
+    ('cv', 'inc:0:1|set:0:0|inc:0:2', 2, True),
+    ('Gv', 'inc:1:1|set:1:10|inc:1:2', 2, True),
+    ('Gv', 'inc:1:1,set:1:3|set:1:10,inc:1:2', 2, True),
 ]
 BACKENDS = ('mutex', 'mmap')
 
@@ -198,7 +205,7 @@ class ReentrantCollector:
 class World:
     def __init__(self, backend, flags):
         import prometheus_client
-        from prometheus_client import values, CollectorRegistry, Counter, Summary, Histogram, Info, Enum
+        from prometheus_client import values, CollectorRegistry, Counter, Gauge, Summary, Histogram, Info, Enum
         self.backend = backend
         self.flags = flags
         self.tmp = None
@@ -214,6 +221,12 @@ class World:
         self.tls = threading.local()
         self.R = CollectorRegistry(target_info={'k': 't0'}) if 'g' in flags else CollectorRegistry()
         self.c = Counter('c', 'h', registry=self.R) if 'c' in flags else None
+        self.g = Gauge('g', 'h', registry=self.R) if 'G' in flags else None
+        if 'v' in flags:                 # set-up phase: the values hold 5 before the threads start
+            if self.c is not None:
+                self.c.inc(5)
+            if self.g is not None:
+                self.g.set(5)
         self.p = Counter('p', 'h', ['l'], registry=self.R) if ('p' in flags or 'q' in flags) else None
         self.p2 = Counter('p2', 'h', ['l'], registry=self.R) if '2' in flags else None
         self.s = Summary('s', 'h', registry=self.R) if 's' in flags else None
@@ -324,7 +337,14 @@ def make_thunk(w, tid, ops, log):
         f = op.split(':')
         k = f[0]
         if k == 'inc':
-            w.c.inc(int(f[2]))
+            (w.c if f[1] == '0' else w.g).inc(int(f[2]))
+            return [], None
+        if k == 'set':
+            if f[1] == '0':
+                assert f[2] == '0'
+                w.c.reset()                  # Counter.reset() = value.set(0)
+            else:
+                w.g.set(int(f[2]))
             return [], None
         if k == 'get':
             return ['G%s=%s' % (f[1], num(w.c._value.get()))], None
@@ -440,7 +460,7 @@ def run_once(backend, flags, program, policy):
             thunks = [make_thunk(w, tid, ops, log) for tid, ops in enumerate(threads)]
             res = ENGINE.run(thunks, SamplingPolicy(policy, w))
             w.sample()
-            obs = {'log': log, 'held': {k: list(v) for k, v in w.held.items()}, 'final': None, 'final_err': None}
+            obs = {'log': log, 'held': {k: list(v) for k, v in w.held.items()}, 'final': None, 'final_err': None, 'flags': flags}
             if res.ok or (all(res.done) and not res.deadlock and not res.stalled):
                 try:
                     obs['final'] = final_state(w)
@@ -562,7 +582,7 @@ def stored_objects(program):
     for t in program.split('|'):
         for op in t.split(','):
             f = op.split(':')
-            if f[0] == 'inc':
+            if f[0] in ('inc', 'set'):
                 objs.add(int(f[1]))
             elif f[0] == 'linc':
                 objs.add(10 + int(f[1]))
@@ -585,6 +605,8 @@ def real_outcome(program, res, obs):
     for o in stored_objects(program):
         if o == 0:
             fin.append('v0=%s' % num(vals.get(('c_total', ()))))
+        elif o == 1:
+            fin.append('v1=%s' % num(vals.get(('g', ()))))
         else:
             fin.append('v%d=%s' % (o, num(vals.get(('p_total', (('l', str(o - 10)),)), 0))))
     for k in sorted(obs['final']['keys'], key=lambda s: int(s)):
@@ -611,8 +633,14 @@ def oracle(program, res, obs):
     r = sums_oracle(ops, dyn, obs['final']['vals'], 'C02:lost-update', '')
     if r:
         return r
+    r = serial_oracle(program, obs['flags'], obs['final']['vals'], 'C02:not-linearizable', '')
+    if r:
+        return r
     if obs['final'].get('files') is not None:
         r = sums_oracle(ops, dyn, obs['final']['files'], 'C02:lost-update-in-file', 'in the store FILE: ')
+        if r:
+            return r
+        r = serial_oracle(program, obs['flags'], obs['final']['files'], 'C02:not-linearizable-in-file', 'in the store FILE: ')
         if r:
             return r
     # the registry never holds two collectors claiming one name (C06's invariant, under concurrency)
@@ -643,10 +671,42 @@ def oracle(program, res, obs):
     return identity_and_collect_oracle(ops, dyn, obs)
 
 
+def serial_finals(threads, obj, init):
+    """final values of value object `obj` over ALL serial orders of the threads' inc / set calls on it (program order kept)"""
+    seqs = [[(f[0], int(f[2])) for f in (op.split(':') for op in t) if f[0] in ('inc', 'set') and f[1] == obj] for t in threads]
+    outs = set()
+
+    def go(pos, v):
+        done = True
+        for i, sq in enumerate(seqs):
+            if pos[i] < len(sq):
+                done = False
+                kind, a = sq[pos[i]]
+                go(pos[:i] + (pos[i] + 1,) + pos[i + 1:], v + a if kind == 'inc' else a)
+        if done:
+            outs.add(v)
+    go(tuple(0 for _ in seqs), init)
+    return outs
+
+
+def serial_oracle(program, flags, vals, sig, where):
+    """an increment racing a set / reset: the final value is the one some serial order of the calls gives (linearizability)"""
+    threads = [t.split(',') for t in program.split('|')]
+    for obj, series in (('0', ('c_total', ())), ('1', ('g', ()))):
+        if not any(op.split(':')[0] == 'set' and op.split(':')[1] == obj for t in threads for op in t):
+            continue
+        legal = serial_finals(threads, obj, 5 if 'v' in flags else 0)
+        got = vals.get(series)
+        if got not in legal:
+            return (sig, where + 'series %s: final value %r, the serial orders of the calls give only %r' % (
+                series[0], got, sorted(legal)))
+    return None
+
+
 def sums_oracle(ops, dyn, vals, sig, where):
     """final value of every series = sum of the increments issued (vals: the collected view, or the files read back)"""
-    want_c = sum(int(f[2]) for f in ops if f[0] == 'inc')
-    if any(f[0] == 'inc' for f in ops):
+    want_c = sum(int(f[2]) for f in ops if f[0] == 'inc' and f[1] == '0')
+    if any(f[0] == 'inc' and f[1] == '0' for f in ops) and not any(f[0] == 'set' and f[1] == '0' for f in ops):
         got = vals.get(('c_total', ()))
         if got != want_c:
             return (sig, where + 'counter c: final value %r, sum of the increments issued %r' % (got, want_c))
@@ -764,7 +824,7 @@ class ModelSets:
 
     @staticmethod
     def line(backend, flags, program):
-        world = ''.join(ch for ch in flags if ch in 'cpq') or '-'
+        world = ''.join(ch for ch in flags if ch in 'cpqv') or '-'
         return 'c02 outcomes %s %s %s' % (backend, world, program)
 
     def prefetch(self, keys):
